@@ -10,13 +10,16 @@ from vt.monitor.db import RecordingDB
 from vt.ref.mpt import RefTrie, annot, nibs
 
 
-def gen_build(rnd, maxkeys=10, kind=None, prune=None, deletes=True):
-    """A case fragment {"prune", "hist"}: plain ops whose result is the trie under study."""
+def gen_build(rnd, maxkeys=10, kind=None, prune=None, deletes=True, bulk=False):
+    """A case fragment {"prune", "hist"}: plain ops whose result is the trie under study.
+    bulk: SCALE - 40..maxkeys keys over a dense universe (all 16 branch slots, deep tries)."""
+    if bulk and kind is None:
+        kind = rnd.choice(["nibbly", "nibbly", "fix3", "k32", "adv"])
     universe = gen.KeyUniverse(rnd, kind)
     pool = gen.value_pool(rnd)
     keys = set()
     hist = []
-    for _ in range(rnd.randint(0, maxkeys)):
+    for _ in range(rnd.randint(40, max(41, maxkeys)) if bulk else rnd.randint(0, maxkeys)):
         k = universe.key()
         hist.append(["set", k.hex(), rnd.choice(pool).hex(), rnd.randrange(2)])
         keys.add(k)
